@@ -158,11 +158,12 @@ func vpSameSet(a, b []string) bool {
 //vp:override (*bs.bloomEntrySets).buildFilters=vpBuildFiltersRec
 //vp:override bs.encodeFilterSection=vpEncodeSectionVar
 //vp:override bs.parseFilterSection=vpParseSectionOK
-//vp:bounds one batch of 1..3 rows, each in partition p or q, each with or without the minmax key (values -3, 0, 12); filter sections of 3 or 4 bytes with arbitrary content; CompressionNone
+//vp:bounds one batch of 1..3 rows, each in partition p or q, each with or without the minmax key (values -3, 0, 12); filter sections of 3 or 4 bytes with arbitrary content, or no filter sections at all (size 0 throughout); CompressionNone
 func H_C17_flushed_file_describes_itself() { vpFlushedFileBody() }
 
 func vpFlushedFileBody() {
 	iw := vpNewImgWorld()
+	vpNoFilterSections = nondetBool() // a writer that stores no filter sections at all (size 0 everywhere) is within the format
 	rows := vpNondetRows(1+nondetChoice(vpBound(2, 3)), "r")
 	id := iw.flushRows(rows)
 	iw.checkFileDescribesItself(id)
@@ -233,7 +234,7 @@ func vpMergedFileBody() {
 //vp:override bs.encodeFilterSection=vpEncodeSectionVar
 //vp:override bs.parseFilterSection=vpParseSectionOK
 //vp:maxsteps 400000
-//vp:bounds one batch of 1..3 rows, each in partition p or q, each with or without the minmax key (values -3, 0, 12); filter sections of 3 or 4 bytes with arbitrary content; CompressionNone
+//vp:bounds one batch of 1..3 rows, each in partition p or q, each with or without the minmax key (values -3, 0, 12); filter sections of 3 or 4 bytes with arbitrary content, or no filter sections at all (size 0 throughout); CompressionNone
 func H_C18_flush_indexes_cover_the_rows_written() { vpFlushedFileBody() }
 
 //vp:override (*bs.bloomEntrySets).indexRow=vpIndexRowRec
@@ -249,7 +250,7 @@ func H_C18_merge_indexes_cover_the_rows_written() { vpMergedFileBody() }
 //vp:override bs.encodeFilterSection=vpEncodeSectionVar
 //vp:override bs.parseFilterSection=vpParseSectionOK
 //vp:maxsteps 400000
-//vp:bounds one batch of 1..3 rows, each in partition p or q, each with or without the minmax key (values -3, 0, 12); filter sections of 3 or 4 bytes with arbitrary content; CompressionNone
+//vp:bounds one batch of 1..3 rows, each in partition p or q, each with or without the minmax key (values -3, 0, 12); filter sections of 3 or 4 bytes with arbitrary content, or no filter sections at all (size 0 throughout); CompressionNone
 func H_C26_flush_builds_filters_from_the_sets_it_fills() { vpFlushedFileBody() }
 
 //vp:override (*bs.bloomEntrySets).indexRow=vpIndexRowRec
